@@ -25,7 +25,8 @@ import common
 TRANSLATORS = ['t_arena']
 TRUSTED = [
     'C19 modelling assumptions: malloc(3) returns maxalign-aligned chunks that never share addresses and does not fail for the '
-    'sizes exercised (<= ~1 MiB); addresses do not wrap; cleanup functions do not use the arena; struct arena_stats and the '
+    'sizes exercised (<= ~1 MiB, and single never-written requests of 2^31-1 .. 2^32 bytes in the build without ASan: frames of 4 - 8 GiB of '
+    'untouched virtual memory); addresses do not wrap; cleanup functions do not use the arena; struct arena_stats and the '
     'diagnostics text of arena_scope_validate are not modelled; vsnprintf is trusted to produce the formatted bytes; the model '
     'keeps frame metadata apart from memory and freed chunks readable: beyond a len = 0 rewind or a frame freed by a leave of a '
     'non-innermost scope it answers "unmodelled" (ArenaDefs.cut_exposed) and only the oracle judges the implementation',
@@ -367,6 +368,373 @@ def gen_seq(rng, maxops, two_arenas, allow_misuse=True, shrink_validated=True):
 
 
 # ---------------------------------------------------------------------------------------------
+# boundary SIZE / SHAPE classes
+# ---------------------------------------------------------------------------------------------
+# Each sub-generator aims one sequence at a size, count or depth next to which an off-by-one (`<` for `<=` in the
+# "fits in the frame" test), a fixed array (MAX_SOURCE_LOCATIONS), a narrowed integer or a dropped overflow check
+# flips.  The classes are carried in case['cls'] and printed as 'class: ...' into the input distribution when the case
+# is evaluated (generated or from corpus/C19/b19_*.json).  The bump arithmetic below is used ONLY to aim sizes at the
+# end of a frame (for the normal or the ASan configuration, chosen per case; every case still runs in both builds);
+# verdicts come from the model and the oracle.
+# Caps: the harness checksums every live block after every operation, so filled blocks stay <= 1 MiB; requests of
+# 2^31-1 .. 2^32 bytes are made once, as the last allocation of a sequence, never written to and kept without shadow
+# copy (arena_harness.c NOSHADOW_ABOVE), in the build without ASan only (an ASan frame of 4 - 8 GiB costs 0.5 - 1 GiB of
+# shadow memory just for frame_poison); nesting depth <= 127 (MAXSCOPE of the harness; arena.c itself has no limit,
+# only the MAX_SOURCE_LOCATIONS = 8 diagnostics array); strings <= 128 KiB (buffer of the harness).
+
+DEPTHS = [1, 2, 7, 8, 9, 15, 16, 17, 31, 32, 33, 63, 64, 65]
+COUNTS = [0, 1, 15, 16, 17, 63, 64, 65]
+STRLENS = [0, 1, 1023, 1024, 1025, 4095, 4096, 4097, 65535, 65536]
+U64MAX = (1 << 64) - 1
+GIB_SIZES = [(1 << 31) - 1, 1 << 31, (1 << 32) - 1, 1 << 32]
+# requests that arena.c itself must refuse by its overflow checks (size + header, frame doubling).  Sizes between 2^32 and
+# 2^63 - 32 are NOT generated: there arena.c relies on malloc(3) failing, and the model has no failing malloc (TRUSTED:
+# "malloc does not fail for the sizes exercised") - it would hand out a frame of 2^63 bytes
+NO_SUCH_SIZES = [(1 << 63) - 1, 1 << 63, U64MAX, U64MAX - 7, U64MAX - 8, U64MAX - 31, U64MAX - 32, U64MAX - 39, U64MAX - 40, (1 << 63) - 31]        # 2^63 - 31 + header > 2^63: the first size the doubling loop refuses
+CALLOC_PAIRS = [(1 << 32, 1 << 32), (1 << 63, 2), (2, 1 << 63), (U64MAX, 2), (U64MAX, U64MAX), (3, 0x5555555555555556), (1 << 32, (1 << 32) + 1),
+                (1 << 33, 1 << 31), ((1 << 32) - 1, (1 << 32) + 1), (1 << 16, 1 << 48), (1 << 32, (1 << 32) - 1), (U64MAX, 1), (1, U64MAX)]
+CALLOC_ZERO = [(0, U64MAX), (U64MAX, 0), (0, 0), (0, 1 << 63)]
+
+
+class Aim:
+    """where the next allocation of arena 0 lands, by the configuration of one build (to aim only)"""
+
+    def __init__(self, consts, pagesize, asan):
+        self.F = consts['frame_mult'] * pagesize
+        self.H = consts['sizeof_frame']
+        self.al = consts['maxalign']
+        self.gap = consts['poison_asan'] if asan else consts['poison_normal']
+        self.fsize = self.F
+        self.len = self.bump(0, self.H)
+
+    def bump(self, at, size):
+        new = at + size
+        a = (new + self.al - 1) // self.al * self.al
+        if self.gap > 0 and a - new < self.gap:
+            a += self.gap
+        return min(a, self.fsize)
+
+    def room(self):
+        return self.fsize - self.len
+
+    def alloc(self, size):
+        if self.len + size > self.fsize:
+            total = size + self.H + self.gap
+            fs = self.F
+            while fs < total:
+                fs *= 2
+            self.fsize = fs
+            self.len = self.bump(0, self.H)
+        off = self.len
+        self.len = self.bump(self.len, size)
+        return off
+
+
+def gen_boundary(rng, consts, pagesize, sub=None):
+    asan_aim = rng.random() < 0.5
+    aim = Aim(consts, pagesize, asan_aim)
+    F, H = aim.F, aim.H
+    node = consts['sizeof_cleanup']
+    ops, cls = [], []
+    nlab = [0]
+    fills = [0]
+    out = {}
+
+    def lab():
+        nlab[0] += 1
+        return nlab[0] - 1
+
+    def fill(l, off, n):
+        if 0 < n <= (1 << 20):
+            fills[0] += 1
+            ops.append('0 F %d %d %d %d' % (l, off, n, 1 + (fills[0] * 37 + l) % 255))
+
+    def malloc(size, k=0, dofill=True):
+        l = lab()
+        ops.append('0 M %d %d %d' % (k, size, l))
+        off = aim.alloc(size)
+        if dofill:
+            fill(l, 0, size)
+        return l, off
+
+    def probe(l, size):
+        if size > 0:
+            for off in sorted({0, size - 1, size // 2}):
+                ops.append('0 G %d %d' % (l, off))
+
+    def some_blocks():
+        for _ in range(rng.choice([0, 1, 3])):
+            malloc(rng.choice(SMALL + [1000, 30000]))
+
+    sub = sub or rng.choice(['fit', 'fit', 'grow', 'grow', 'bigger', 'depth', 'depth', 'frames', 'cleanups', 'blocks', 'strings',
+                             'containers', 'containers', 'nosuch', 'nosuch', 'gib', 'realloc01'])
+    ops.append('0 E')
+    leave = True
+    if sub == 'fit':
+        # an allocation that ends 8 / 1 byte before the end of the frame, exactly at it, 1 / 8 bytes beyond
+        some_blocks()
+        first, _ = malloc(24)
+        d = rng.choice([-8, -1, 0, 0, 1, 8])
+        how = rng.choice(['M', 'M', 'C', 'S', 'D', 'P', 'R', 'U'])
+        if how == 'U':
+            pad = aim.room() - node - d - 2 * aim.gap
+            if pad > 0:
+                malloc(pad // aim.al * aim.al)
+            ops.append('0 U 0 1001')
+            aim.alloc(node)
+        else:
+            want = max(1, aim.room() + d)
+            l = lab()
+            if how == 'M':
+                ops.append('0 M 0 %d %d' % (want, l))
+            elif how == 'C':
+                nm = rng.choice([1, 2, 4, 8])
+                want = want // nm * nm
+                ops.append('0 C 0 %d %d %d' % (nm, want // nm, l))
+            elif how == 'R':
+                ops.append('0 R 0 -1 0 0 %d %d' % (want, l))
+            else:
+                ops.append('0 %s 0 %s %d' % (how, common.hexs(bytes(rng.choice(b'abcxyz0189 _') for _ in range(want - 1))), l))
+            aim.alloc(want)
+            if how in 'MCR':
+                fill(l, 0, want)
+            probe(l, want)
+        for s in rng.choice([[0, 1], [1, 8], [8], [0, 0, 8], [F]]):     # into the last bytes of the frame or into a new one
+            malloc(s)
+        probe(first, 24)
+        cls += ['arena allocation (%s) ends at the frame end%s' % (how, '%+d' % d if d else ' exactly')]
+    elif sub == 'grow':
+        # realloc of the LAST block so that it ends at the frame end -8 / -1 / exactly / +1 / +8 (in place or moved to a new
+        # frame); the same request for a block that is not the last one
+        some_blocks()
+        old = rng.choice([0, 1, 8, 24, 100, 4096])
+        last = rng.random() < 0.75
+        src, off = malloc(old)
+        if not last:
+            malloc(rng.choice([1, 8, 100]))
+        d = rng.choice([-8, -1, 0, 0, 1, 8])
+        new = max(old + 1, aim.fsize - off + d)
+        l = lab()
+        ops.append('0 R 0 %d 0 %d %d %d' % (src, old, new, l))
+        if last and off + new <= aim.fsize:
+            aim.len = aim.bump(off, new)
+        else:
+            aim.alloc(new)
+        fill(l, old, new - old)
+        probe(l, new)
+        malloc(rng.choice([0, 1, 8]))
+        l2 = lab()
+        ops.append('0 R 0 %d 0 %d %d %d' % (l, new, new + 1, l2))      # and one byte more
+        probe(l2, new + 1)
+        cls += ['arena realloc of %s block to the frame end%s' % ('the last' if last else 'a non-last', '%+d' % d if d else ' exactly')]
+    elif sub == 'realloc01':
+        # grow by exactly 0 / 1 byte, shrink to 0 / 1, for the last block and for one that is not the last
+        some_blocks()
+        old = rng.choice([0, 1, 7, 8, 9, 16, 100])
+        last = rng.random() < 0.6
+        src, off = malloc(old)
+        if not last:
+            malloc(rng.choice([1, 8]))
+        how = rng.choice(['grow by 0', 'grow by 1', 'shrink to 0', 'shrink to 1', 'shrink by 1'])
+        new = {'grow by 0': old, 'grow by 1': old + 1, 'shrink to 0': 0, 'shrink to 1': min(old, 1), 'shrink by 1': max(0, old - 1)}[how]
+        l = lab()
+        ops.append('0 R 0 %d 0 %d %d %d' % (src, old, new, l))
+        fill(l, old, new - old)
+        probe(l, new)
+        l3, _ = malloc(8)
+        l2 = lab()
+        ops.append('0 R 0 %d 0 %d %d %d' % (l, new, new + 9, l2))
+        probe(l2, new + 9)
+        probe(l3, 8)
+        cls += ['arena realloc: %s (%s block)' % (how, 'last' if last else 'non-last')]
+    elif sub == 'bigger':
+        # larger than a whole frame: m frames minus header (and poison gap) -1 / exactly / +1, m = 1, 2, 4, 8, 16
+        some_blocks()
+        m = rng.choice([1, 2, 2, 4, 8, 16])
+        d = rng.choice([-8, -1, 0, 1, 8])
+        first, _ = malloc(24)
+        size = m * F - aim.bump(0, H) + d
+        l, _ = malloc(size)
+        probe(l, size)
+        malloc(rng.choice([0, 1, 8]))
+        malloc(F)
+        probe(first, 24)
+        cls += ['arena allocation of %d frame(s) minus the header%s' % (m, '%+d' % d if d else ' exactly')]
+    elif sub == 'depth':
+        # nesting depth D; at the bottom an allocation, a cleanup and either an orderly unwinding or a use of an outer scope
+        D = rng.choice(DEPTHS)
+        keep = []
+        for i in range(1, D):
+            if rng.random() < 0.3 or i in (1, D - 1):
+                keep.append(malloc(rng.choice([1, 8, 24]))[0])
+            if rng.random() < 0.2:
+                ops.append('0 U 0 %d' % (2000 + i))
+                aim.alloc(node)
+            ops.append('0 E')
+        l, _ = malloc(16)
+        cls.append('arena nesting depth %d' % D)
+        end = rng.random()
+        msl = consts.get('max_source_locations', 8)
+        if end < 0.35 and D >= 2:
+            # through scope k: its id is D - k; ids at the end of the scope_locations array (7, 8, 9) and the outermost
+            ids = [i for i in (1, msl - 1, msl, msl + 1, D - 1) if 1 <= i <= D - 1]
+            sid = rng.choice(ids)
+            k = D - sid
+            ops.append(rng.choice(['0 M %d 8 %d' % (k, lab()), '0 U %d 77' % k, '0 C %d 1 8 %d' % (k, lab()), '0 R %d -1 0 0 8 %d' % (k, lab())]))
+            cls.append('arena use of outer scope #%d at depth %d (must trap)' % (sid, D))
+            leave = False
+        elif end < 0.45 and D >= 3:
+            k = rng.choice([1, D - 1])
+            ops.append('0 L %d' % k)
+            ops.append('0 E')
+            ops.append('0 M 0 16 %d' % lab())
+            cls.append('arena leave of a non-innermost scope at depth %d' % D)
+            leave = False
+        else:
+            for i in range(D - 1):
+                ops.append('0 L 0')
+            if D >= 2:
+                ops.append('0 G %d 0' % keep[0])       # the block of the outermost scope is still live
+    elif sub == 'frames':
+        # N frames: blocks that each need a frame of their own; a nested scope half way gives its frames back
+        N = rng.choice([1, 2, 16, 17, 64, 65])
+        size = F - 2 * aim.bump(0, H) - 64
+        labs = []
+        for i in range(max(0, N - 1)):
+            if i == (N - 1) // 2:
+                ops.append('0 E')
+            labs.append(malloc(size + rng.choice([0, 8, 40]), dofill=(i % 8 == 0))[0])
+        for lx in labs[:2] + labs[-1:]:
+            ops.append('0 G %d 0' % lx)
+        if N >= 2:
+            ops.append('0 L 0')
+            malloc(size)
+            if labs[:1] and (N - 1) // 2 > 0:
+                ops.append('0 G %d 0' % labs[0])
+        cls.append('arena frames=%d' % N)
+    elif sub == 'cleanups':
+        N = rng.choice(COUNTS)
+        inner = rng.random() < 0.5
+        if inner:
+            ops.append('0 E')
+        for i in range(N):
+            ops.append('0 U 0 %d' % (3000 + i))
+            aim.alloc(node)
+            if rng.random() < 0.2:
+                malloc(rng.choice([1, 8, 100]))
+        if inner:
+            ops.append('0 L 0')
+            ops.append('0 U 0 9')
+        cls.append('arena cleanups=%d' % N)
+    elif sub == 'blocks':
+        N = rng.choice([15, 16, 17, 63, 64, 65, 255, 256, 257])
+        labs = [(malloc(s)[0], s) for s in (rng.choice([0, 1, 7, 8, 9, 16, 24, 100]) for _ in range(N))]
+        for lx, s in rng.sample(labs, min(6, len(labs))):
+            probe(lx, s)
+        ops.append('0 E')
+        malloc(8)
+        ops.append('0 L 0')
+        for lx, s in labs[:2] + labs[-2:]:
+            probe(lx, s)
+        cls.append('arena live blocks=%d' % N)
+    elif sub == 'strings':
+        n = rng.choice(STRLENS)
+        kind = rng.choice('SDP')
+        some_blocks()
+        data = bytes(rng.choice(b'abcxyz0189 _') for _ in range(n))
+        if kind in 'SD' and n > 2 and rng.random() < 0.3:
+            data = data[:n // 2] + b'\x00' + data[n // 2 + 1:]
+            cls.append('arena string with a NUL inside')
+        l = lab()
+        ops.append('0 %s 0 %s %d' % (kind, common.hexs(data), l))
+        size = (len(data) if kind == 'S' else len(data.split(b'\x00')[0])) + 1
+        probe(l, size)
+        malloc(8)
+        probe(l, size)
+        cls.append('arena %s of %d bytes' % ({'S': 'strndup', 'D': 'strdup', 'P': 'sprintf'}[kind], n))
+    elif sub == 'containers':
+        if rng.random() < 0.5:
+            init = rng.choice([0, 1, 16, 1024, 8192, 65536])
+            ops.append('0 BA 0 %d 0' % init)
+            ns = [rng.choice([1023, 1024, 1025, 4095, 4096, 4097, 65535, 65536, 15, 16, 17]) for _ in range(rng.choice([1, 2, 3]))]
+            for n in ns:
+                ops.append('0 BP 0 %s' % common.hexs(bytes(rng.choice(b'abc') for _ in range(n))))
+                if rng.random() < 0.3:
+                    malloc(8)
+                cls.append('arena buffer append of %d bytes' % n)
+            cls.append('arena buffer initial size %d' % init)
+        else:
+            stride = rng.choice([1, 3, 8, 24, 4096])
+            n0 = rng.choice([0, 1, 15, 16, 17])
+            ops.append('0 VI 0 %d %d 0' % (stride, n0))
+            total = rng.choice([15, 16, 17, 31, 32, 33, 63, 64, 65, 255, 256, 257])
+            done = 0
+            while done < total:
+                step = min(total - done, rng.choice([1, 15, 16, 17, total]))
+                ops.append('0 VA 0 %d' % step)
+                done += step
+                if rng.random() < 0.2:
+                    malloc(8)
+                if rng.random() < 0.2:
+                    ops.append('0 VR 0 %d' % rng.choice([1, 2, 17]))
+            cls += ['arena vector of %d elements' % total, 'arena vector stride %d' % stride]
+    elif sub == 'nosuch':
+        # requests nothing can satisfy: must end in exit(1) with nothing damaged before
+        some_blocks()
+        first, _ = malloc(24)
+        how = rng.choice(['M', 'C', 'C', 'R-null', 'R-grow', 'C-zero'])
+        if how == 'M':
+            s = rng.choice(NO_SUCH_SIZES)
+            ops.append('0 M 0 %d %d' % (s, lab()))
+            cls.append('arena malloc of %s' % ('SIZE_MAX%+d' % (s - U64MAX) if s > (1 << 63) + 1 and s != U64MAX else ('SIZE_MAX' if s == U64MAX else '2^63%+d' % (s - (1 << 63)) if s != 1 << 63 else '2^63')))
+        elif how == 'C':
+            nm, sz = rng.choice(CALLOC_PAIRS)
+            ops.append('0 C 0 %d %d %d' % (nm, sz, lab()))
+            cls.append('arena calloc whose product overflows or exceeds every frame')
+        elif how == 'C-zero':
+            nm, sz = rng.choice(CALLOC_ZERO)
+            l = lab()
+            ops.append('0 C 0 %d %d %d' % (nm, sz, l))
+            malloc(8)
+            cls.append('arena calloc of 0 x SIZE_MAX (no overflow: an empty block)')
+        elif how == 'R-null':
+            ops.append('0 R 0 -1 0 0 %d %d' % (rng.choice(NO_SUCH_SIZES), lab()))
+            cls.append('arena realloc(NULL) of a size no frame can hold')
+        else:
+            ops.append('0 R 0 %d 0 24 %d %d' % (first, rng.choice(NO_SUCH_SIZES), lab()))
+            cls.append('arena realloc growing a block to a size no frame can hold')
+        leave = how == 'C-zero'
+    elif sub == 'gib':
+        some_blocks()
+        first, _ = malloc(24)
+        s = rng.choice(GIB_SIZES)
+        ops.append('0 M 0 %d %d' % (s, lab()))
+        probe(first, 24)
+        malloc(8)
+        cls.append('arena malloc of %s bytes' % {GIB_SIZES[0]: '2^31-1', GIB_SIZES[1]: '2^31', GIB_SIZES[2]: '2^32-1', GIB_SIZES[3]: '2^32'}[s])
+        out['builds'] = ['normal']
+    if leave:
+        ops.append('0 L 0')
+        if rng.random() < 0.5:
+            ops.append('0 X')
+    cls.append('arena sizes aimed at the %s configuration' % ('ASan' if asan_aim else 'normal')) if sub in ('fit', 'grow', 'bigger') else None
+    out.update({'seq': ops, 'cls': cls})
+    return out
+
+
+def expand_case(c):
+    """compact corpus form: "rep": {"K": [unit_hex, count]} stands for unit * count; "$K" as a token of an operation is
+    replaced by it"""
+    rep = c.get('rep')
+    if not rep:
+        return c
+    c = {k: v for k, v in c.items() if k != 'rep'}
+    table = {'$' + name: (unit * count) or '-' for name, (unit, count) in rep.items()}
+    c['seq'] = [' '.join(table.get(t, t) for t in op.split(' ')) for op in c['seq']]
+    return c
+
+
+# ---------------------------------------------------------------------------------------------
 # running
 # ---------------------------------------------------------------------------------------------
 def build_harness(ctx, impl, asan):
@@ -609,9 +977,15 @@ def evaluate(ctx, cases, res, builds, consts, label=''):
         bname = 'asan' if asan else 'normal'
         cfg = cfg_toks(consts, asan, pagesize)
         ocfg = cfg_toks(consts, asan, pagesize, oracle=True)
-        seqs = [c['seq'] for c in cases if bname in c.get('builds', ['normal', 'asan'])]
+        sel = [c for c in cases if bname in c.get('builds', ['normal', 'asan'])]
+        seqs = [c['seq'] for c in sel]
         if not seqs:
             continue
+        for c in sel:
+            # boundary classes: counted once per case (in the first build that runs it)
+            if bname == c.get('builds', ['normal', 'asan'])[0]:
+                for k in c.get('cls', []):
+                    res.count('class: ' + k)
         parsed = run_harness(binary, seqs)
         nonlifo_at = {}     # sequence index -> (arena, operation index) of the first nonlifo-leave-undetected verdict
         qs = []
@@ -760,16 +1134,21 @@ def load_corpus():
     cases = []
     named = set()
     for pth in paths:
-        c = json.load(open(pth))
-        if not c.get('seq'):
-            raise RuntimeError('C19: corpus case %s has no sequence' % pth)
-        dd = {'seq': c['seq']}
-        if 'builds' in c:
-            dd['builds'] = c['builds']
-        f = c.get('finding')
-        for x in ([f] if isinstance(f, str) else (f or [])):
-            named.add(x)
-        cases.append((0 if f else 1, dd))
+        loaded = json.load(open(pth))
+        # one case per file, or (the boundary classes, b19_*.json) a list of cases
+        for c in (loaded if isinstance(loaded, list) else [loaded]):
+            if not c.get('seq'):
+                raise RuntimeError('C19: corpus case %s has no sequence' % pth)
+            c = expand_case(c)
+            dd = {'seq': c['seq']}
+            if 'builds' in c:
+                dd['builds'] = c['builds']
+            if 'cls' in c:
+                dd['cls'] = c['cls']
+            f = c.get('finding')
+            for x in ([f] if isinstance(f, str) else (f or [])):
+                named.add(x)
+            cases.append((0 if f else 1, dd))
     missing = [x for x in findings_needing_corpus() if x not in named]
     if missing:
         raise RuntimeError('C19: known_findings.json entries without a corpus case under corpus/C19: %s' % ', '.join(missing))
@@ -797,7 +1176,16 @@ def run(ctx, n=None, maxops=None):
                 'scope followed by allocations (inside the property; known finding nonlifo-leave-undetected); every realloc '
                 'buffer.c / vector.c issue is compared with the extracted buf_reserve / vec_reserve; '
                 'non-trivial = at least 6 primitive operations and (a second frame, a reallocation, or a trap/exit); '
-                'distinct by sequence hash; every sequence runs in the normal and in the ASan build')
+                'distinct by sequence hash; every sequence runs in the normal and in the ASan build.  Boundary classes (gen_boundary, '
+                'counted as "class: ..."; one case per class in corpus/C19/b19_*.json): allocations by malloc / calloc / realloc(NULL) / '
+                'strndup / strdup / sprintf / cleanup ending 8 or 1 byte before the frame end, exactly at it, 1 or 8 beyond (aimed at the '
+                'normal or the ASan configuration); realloc of the last / a non-last block to those ends, by 0 / 1 byte, to 0 / 1; blocks of '
+                '1, 2, 4, 8, 16 frames minus the header +-1; nesting depths 1, 2, 7, 8, 9 (MAX_SOURCE_LOCATIONS), 15..17, 31..33, 63..65 '
+                'with an orderly unwinding, a use of outer scope #1 / #7 / #8 / #9 (must trap) or a leave of a non-innermost scope; '
+                '1, 2, 16, 17, 64, 65 frames; 0, 1, 15..17, 63..65 cleanups; 15..257 live blocks; strings of 0, 1, 1023..1025, 4095..4097, '
+                '65535, 65536 bytes; arena buffers fed 15..65536 bytes, arena vectors of 15..257 elements with strides 1, 3, 8, 24, 4096; '
+                'requests arena.c must refuse by its own overflow checks (2^63-31 .. SIZE_MAX, calloc products like 2^32 x 2^32, 2^63 x 2) '
+                'and requests of 2^31-1 .. 2^32 bytes (normal build only, never written)')
     consts = constants()
     n = n or ctx.budget(400, 20000)
     maxops = maxops or ctx.budget(45, 120)
@@ -807,8 +1195,12 @@ def run(ctx, n=None, maxops=None):
         seqs.append({'seq': gen_seq(ctx.rng, maxops if i % 4 else 12, two_arenas=(i % 3 == 0),
                                     shrink_validated=bool(consts['shrink_validated']))})
     res.samples = seqs[ncorpus:ncorpus + 3]
-    res.assumptions = ['sequences of at most %d generator operations, sizes up to 1 MiB plus requests >= 2^63 '
-                       '(the theorems have no bound)' % maxops]
+    pagesize = os.sysconf('SC_PAGESIZE')
+    nb = max(1, n // 4) if n != ctx.budget(400, 20000) else ctx.budget(120, 4000)
+    seqs += [gen_boundary(ctx.rng, consts, pagesize) for _ in range(nb)]
+    res.assumptions = ['sequences of at most %d generator operations (boundary sequences up to ~600), sizes up to 1 MiB, single requests of '
+                       '2^31-1 .. 2^32 bytes, and requests >= 2^63 - 31 (the theorems have no bound); sizes between 2^32 and 2^63 - 32 would '
+                       'need a failing malloc(3), which the model does not have' % maxops]
     builds = make_builds(ctx)
     chunk = 5000
     for i in range(0, len(seqs), chunk):
